@@ -99,20 +99,28 @@ def glue_unit(n, lb_given, ub_given, kind="Square"):
                 bounds={"variables": n, "lb": lb_given, "ub": ub_given}, program={"fit": kind, "n": n}, replay=replay_fit)
 
 
-def noisefree_unit(sel, tp=None):
+def noisefree_unit(sel, tp=None, shared_x0=False):
+    """shared_x0: the caller keeps ONE float64 array of initial values and builds a second loss object (with target_state)
+    from it; an initial-value evaluation on that second object must not leak into the first one's fit"""
     def h(c):
         if c.mode != "sym":
             return
-        from pygom.loss import base_loss
+        from pygom.loss import base_loss, ode_loss
         # keyed flows: the same ODE, parameters and initial condition give the same solution (uniqueness)
         with stubs.integrator_stubs(c, eig="fixed", keyed="semantic") as book, stubs.patched(*loss_patches(c)):
-            L = build_loss(c, "Square", sel, tp, None, 2, False, "scalar")
+            L = build_loss(c, "Square", sel, tp, None, 2, False, "scalar", x0_kind="float64" if shared_x0 else "sym")
+            x0_at_construction = [float(v) for v in L.x0] if shared_x0 else None
+            if shared_x0:
+                other = ode_loss.SquareLoss(arr(c, list(L.theta_full)), L.model, L.x0, L.t0, arr(c, list(L.t)), arr(c, [c.real("oy%d" % i) for i in range(2)]), "J",
+                                            target_state=["J"])
+                other.costIV(arr(c, [c.real("o_beta", lo=0.05, hi=0.3), c.real("o_gamma", lo=0.2, hi=1.0), 3.0]))
+                c.prove(all_close(L.x0, x0_at_construction, c), "the caller's initial-value array is not modified by a loss object built from it")
             # noise-free data: the observations ARE the trajectory of the model with the generating parameters bound
             # BY NAME (independently of how the loss object routes theta): the flow of the augmented system is an
             # uninterpreted function of (t; f(z0), z0, t0), so the loss reproduces it iff it binds the same values
             m_ = L.model
             m_.parameters = {"beta": L.bound["beta"], "gamma": L.bound["gamma"]}
-            z0 = arr(c, list(L.x0) + [0] * (NS * NP))
+            z0 = arr(c, list(x0_at_construction if shared_x0 else L.x0) + [0] * (NS * NP))
             fl = book.start(z0, L.t0, fval=m_.ode_and_sensitivity(z0, L.t0))
             rows = [book.at(fl, ti) for ti in L.t]
             for i in range(2):
@@ -129,7 +137,7 @@ def noisefree_unit(sel, tp=None):
                 out = L.obj.fit(L.theta_arg, lb, ub)
         c.reachable("fit returned")
         c.prove(out is L.theta_arg, "started at the generating parameters of noise-free data, fit returns them")
-    return Unit("C18.noisefree[states=%s,target=%s]" % ("+".join(sel), "all" if tp is None else "+".join(tp)), h,
+    return Unit("C18.noisefree[states=%s,target=%s%s]" % ("+".join(sel), "all" if tp is None else "+".join(tp), ",shared_x0" if shared_x0 else ""), h,
                 bounds={"times": 2, "observed_states": list(sel), "target_param": tp}, program={"fit": "noisefree", "sel": list(sel), "tp": tp},
                 replay=replay_fit)
 
@@ -183,6 +191,18 @@ def replay_fit(vals, label):
     r3 = L3.fit(np.array([th[1]]), np.array([0.1]), np.array([1.5]))
     if np.max(np.abs(np.asarray(r3) - np.array([th[1]]))) > 1e-3:
         bad["noisefree_returns_start[target_param=gamma]"] = list(map(float, r3))
+    # one float64 array of initial values shared by two loss objects; an initial-value evaluation on the second one
+    # (target_state given) must not move the first one's landscape
+    x0a = np.array(x0, dtype=np.float64)
+    La = SquareLoss(th, m, x0a, 0.0, t, y, "J")
+    Lb = SquareLoss(th, m, x0a, 0.0, t, y, "J", target_state=["J"])
+    Lb.costIV(np.array(th + [3.0]))
+    if list(x0a) != list(x0):
+        bad["caller_x0_modified"] = list(map(float, x0a))
+    ra = La.fit(np.array(th), lb, ub)
+    if np.max(np.abs(np.asarray(ra) - np.array(th))) > 1e-4:
+        bad["noisefree_returns_start[x0 array shared with a second object]"] = list(map(float, ra))
+    m.parameters = th
     start = np.array([0.4, 0.2])
     r2 = L.fit(start, lb, ub)
     if np.any(r2 < lb - 1e-12) or np.any(r2 > ub + 1e-12):
@@ -206,7 +226,8 @@ class C18(Check):
 
     def units(self, tier, seed):
         us = [glue_unit(2, True, True), glue_unit(1, True, True), glue_unit(2, False, True), glue_unit(2, True, False), glue_unit(2, False, False),
-              noisefree_unit(("J",)), noisefree_unit(("R", "S")), noisefree_unit(("J", "S"), ("gamma", "beta")), noisefree_unit(("R",), ("gamma",))]
+              noisefree_unit(("J",)), noisefree_unit(("R", "S")), noisefree_unit(("J", "S"), ("gamma", "beta")), noisefree_unit(("R",), ("gamma",)),
+              noisefree_unit(("J",), shared_x0=True)]
         if tier != "quick":
             us += [glue_unit(2, True, True, "Normal"), glue_unit(2, True, True, "Poisson"), noisefree_unit(("R", "S", "J"))]
         return us
